@@ -46,6 +46,28 @@ Proof.
   intro Ha. rewrite py_range3_up, (seq_add_map (Z.to_nat a)), map_map. apply map_ext; intro; lia.
 Qed.
 
+(* range(n-1, 0, -1) is reversed(range(1, n)) *)
+Lemma rev_down_aux k : map (fun i => Z.of_nat k - Z.of_nat i) (seq 0 k) = rev (map Z.of_nat (seq 1 k)).
+Proof.
+  induction k as [|k IH]; [reflexivity|].
+  rewrite (seq_S k 1), map_app, rev_app_distr. cbn [map rev app].
+  cbn [seq map]. replace (Z.of_nat (S k) - Z.of_nat 0) with (Z.of_nat (1 + k)) by lia. f_equal.
+  rewrite <- IH. rewrite <- seq_shift, map_map. apply map_ext. intro i. lia.
+Qed.
+Lemma range_count_down0 n : 1 <= n -> range_count (n - 1) 0 (-1) = n - 1.
+Proof.
+  intro H. unfold range_count. cbn [Z.ltb Z.compare].
+  destruct (0 <? n - 1) eqn:E.
+  - apply Z.ltb_lt in E. change (- -1) with 1. rewrite Z.div_1_r. lia.
+  - apply Z.ltb_ge in E. lia.
+Qed.
+Lemma py_range3_down_rev n : 1 <= n -> py_range3 (n - 1) 0 (-1) = rev (py_range3 1 n 1).
+Proof.
+  intro H. rewrite py_range3_from by lia. unfold py_range3. rewrite range_count_down0 by lia.
+  change (Z.to_nat 1) with 1%nat. set (k := Z.to_nat (n - 1)).
+  rewrite <- rev_down_aux. apply map_ext. intro i. unfold k. lia.
+Qed.
+
 Lemma range_count_down k : 0 <= k -> range_count (k - 1) (-1) (-1) = k.
 Proof.
   intro Hk. unfold range_count. cbn [Z.ltb Z.compare].
